@@ -79,3 +79,44 @@ Example c18_reachable_nontrivial :
               SAdvance 3; SUnschedTag 2] in
   events (reach ops) = [(9, 1)] /\ tags (reach ops) = [(1, 9)].
 Proof. vm_compute. split; reflexivity. Qed.
+
+(* ---------------------------------------------------------------------------
+   The scheduler inside the running engine (coq/Engine.v): the node is woken at
+   every time that is still pending.  [boundary] is the scheduling invariant that
+   Props/C02.v proves to hold after start and after every cycle of every run.
+   --------------------------------------------------------------------------- *)
+Require Import Engine EngineFacts EngineWitness.
+
+(* never later than requested: the next cycle is no later than any pending time *)
+Theorem next_cycle_not_after_pending : forall cfgs g i e,
+  boundary cfgs g -> (i < length cfgs)%nat -> c_sched (cfg cfgs i) = true -> In e (pending g i) ->
+  g_nst g <= fst e.
+Proof. exact EngineFacts.no_pending_skipped. Qed.
+Print Assumptions next_cycle_not_after_pending.
+
+(* woken at it: in the cycle whose time is a pending time the node's slot is that time *)
+Theorem woken_at_pending_time : forall cfgs g i e,
+  boundary cfgs g -> (i < length cfgs)%nat -> c_sched (cfg cfgs i) = true -> In e (pending g i) ->
+  fst e = g_nst g -> slot_at i g = g_nst g.
+Proof. exact EngineFacts.due_slot_is_now. Qed.
+Print Assumptions woken_at_pending_time.
+
+(* never in the past, never left behind: after the cycle at t nothing with time <= t is pending *)
+Theorem nothing_due_left_pending : forall cfgs beh g,
+  well_ranked cfgs -> boundary cfgs g -> g_err g = 0 -> g_nst g < MAX_DT ->
+  g_err (evaluate_graph cfgs beh (g_nst g) g) = 0 ->
+  forall i e, (i < length cfgs)%nat -> c_sched (cfg cfgs i) = true ->
+  In e (pending (evaluate_graph cfgs beh (g_nst g) g) i) -> g_nst g < fst e.
+Proof. exact EngineFacts.due_events_consumed. Qed.
+Print Assumptions nothing_due_left_pending.
+
+(* The converse direction is FALSE of the faithful model (and of the code): a node is
+   also woken at a time it has cancelled or replaced, because the graph slot is only
+   ever moved earlier.  Witness: node 0 schedules tag a at +3 then re-schedules tag a at
+   +6 in one evaluation; its user code runs at t=4 with nothing due (line 12 0 4 1 0 7:
+   run 1 at time 4, is_scheduled_now = 0, next pending = 7).  Recorded as a known
+   finding (known_findings.json, DESIGN.md 8.2). *)
+Theorem woken_only_at_pending_refuted :
+  exists case : wire, In [12; 0; 4; 1; 0; 7] (run_core case).
+Proof. exact Engine_witness.abandoned_wakeup. Qed.
+Print Assumptions woken_only_at_pending_refuted.
